@@ -316,6 +316,10 @@ paths = []
 for k in range(4):
     # different workbooks whose formula cells sit at the same coordinates
     W = [('Main', {'A1': '=B1+%%d' %% k, 'B1': '=C1*2', 'C1': k + 1, 'A2': '=SUM(A1:C1)', 'D1': '=IF(A1>3,"p","q")&Other!A1'}), ('Other', {'A1': '=Main!C1+%%d' %% k})]
+    # a long dependency chain keeps many cells "in translation" for a while, so that the threads really overlap
+    for i in range(1, 120):
+        W[0][1]['F%%d' %% i] = '=F%%d+%%d' %% (i + 1, k)
+    W[0][1]['F120'] = k
     paths.append(build.write_xlsx(os.path.join(d, 'w%%d.xlsx' %% k), [(t, build.a1(c)) for t, c in W]))
 def tr(p):
     try:
